@@ -57,15 +57,15 @@ class Runner:
         ents = json.load(open(path))["findings"] if os.path.exists(path) else []
         return [e for e in ents if e["property"] == self.pid]
 
-    def drive_args(self, extra):
+    def drive_args(self, extra, without=None):
         a = [self.bin, "--prop", self.pid, "--tier", "1" if self.tier == "thorough" else "0"]
-        kn = [e["id"] for e in self.known() if e["status"] == "known"]   # exclusions are per property: each affected property lists its own entry and witness
+        kn = [e["id"] for e in self.known() if e["status"] == "known" and e["id"] != without]   # exclusions are per property: each affected property lists its own entry and witness
         if kn: a += ["--known", ",".join(kn)]
         return a + extra
 
-    def replay(self, path, no_exclude=False, text=False, budget=None):
+    def replay(self, path, no_exclude=False, text=False, budget=None, without=None):
         wd = os.path.join(self.work, "replay"); os.makedirs(wd, exist_ok=True)
-        a = self.drive_args(["--mode", "replay", "--replay", path, "--workdir", wd])
+        a = self.drive_args(["--mode", "replay", "--replay", path, "--workdir", wd], without=without)
         if no_exclude: a.append("--no-exclude")
         if text: a.append("--text")
         if budget: a += ["--budget", str(budget)]
@@ -175,7 +175,8 @@ class Runner:
         for e in self.known():
             if e["status"] != "known": continue
             w = os.path.join(VERIF, e["witness"])
-            k, s, out = self.replay(w, no_exclude=True, budget=e.get("budget", 20))
+            # the witness runs with every OTHER known finding of the property still excluded, only its own class is re-enabled
+            k, s, out = self.replay(w, without=e["id"], budget=e.get("budget", 20))
             exp = e.get("expect", {})
             if k == "pass":
                 self.notes.append(f"known finding {e['id']} no longer reproduces on this tree"); continue
